@@ -244,8 +244,19 @@ def pathCompare (a b : Cand) : Int :=
   else if a.origin.getD 0 != b.origin.getD 0 then (b.origin.getD 0 : Int) - a.origin.getD 0
   else (b.getMed : Int) - a.getMed
 
-/-- getMultiBestPath -/
+/-- a path that may share the load with `best`: reachable, as LLGR-stale as `best`, and equal
+    under Path.Compare -/
+def equalCost (best y : Cand) : Bool :=
+  !y.nhInvalid && y.stale == best.stale && pathCompare y best == 0
+
+/-- getMultiBestPath (after the fix): the run of equal-cost paths at the head of the list -/
 def multipath (l : List Cand) : List Cand :=
+  match l with
+  | [] => []
+  | best :: rest => if best.nhInvalid then [] else best :: rest.takeWhile (equalCost best)
+
+/-- getMultiBestPath as on the pinned tree: the end of the run located by `sort.Search` -/
+def multipathOld (l : List Cand) : List Cand :=
   match l with
   | [] => []
   | best :: _ =>
